@@ -103,6 +103,14 @@ type seqState struct {
 	created                      []made // swaps created so far (in this sequence), for claim/refund targets
 	limStable                    bool
 	pendingClaim                 []byte // raw id of a swap to claim next with the right secret (set by genSetLimit)
+	pendingTag                   string // variant tag of that forced claim
+	// deputy rotation: the deputy in force when each swap was created (the harness's own record, keyed by raw
+	// id), the swaps that were live at the last rotation and still have to be closed, and whether this sequence
+	// rotates as soon as an asset has live swaps in both directions
+	cdep       map[string]int
+	depQueue   [][]byte
+	rotateSoon bool
+	rotations  int
 	// the harness's own bookkeeping of the time-limited allowance, from its own log of block times and of
 	// the incoming amounts it saw claimed; it never reads the implementation's TimeElapsed counter
 	lastBlockNs int64            // time of the previous block the harness started
@@ -513,6 +521,7 @@ func (w *world) genCreate(r *c.Rng, st *seqState, o obs) *opDesc {
 		after: func(ok bool) {
 			if ok {
 				st.created = append(st.created, made{id: id, secret: sec, hash: hash, ts: ts, sender: sd, other: so})
+				st.cdep[string(id)] = dep
 			}
 		},
 	}
@@ -580,7 +589,7 @@ func (w *world) genClaim(r *c.Rng, st *seqState, o obs) *opDesc {
 	var id, rn []byte
 	variant := "right"
 	if forced {
-		id, rn, variant = target.rawID, st.secretOf(target.rawID), "right-after-setlimit"
+		id, rn, variant = target.rawID, st.secretOf(target.rawID), st.pendingTag
 	} else if target == nil || r.Chance(6) {
 		id, rn, variant, target = randBytes(r, 32), randBytes(r, 32), "unknown-id", nil
 	} else {
@@ -785,7 +794,7 @@ func (w *world) genSetLimit(r *c.Rng, st *seqState, o obs) *opDesc {
 			a.SupplyLimit.Limit = sdkmath.NewInt(limit)
 			a.SupplyLimit.TimeBasedLimit = sdkmath.NewInt(tbl)
 			a.Active = true
-			st.pendingClaim = sw.rawID
+			st.pendingClaim, st.pendingTag = sw.rawID, "right-after-setlimit"
 		}
 	}
 	cmp := "raise"
@@ -803,6 +812,152 @@ func (w *world) genSetLimit(r *c.Rng, st *seqState, o obs) *opDesc {
 			return nil
 		},
 	}
+}
+
+func isLive(sw swapObs) bool { return sw.status != int(types.SWAP_STATUS_COMPLETED) }
+
+// liveBothWays: the asset has a live incoming swap whose amount is covered by the live outgoing swaps of the
+// same asset (the state in which a close that takes the wrong direction does not simply fail)
+func liveBothWays(o obs, d int) (in, out bool, covered bool) {
+	var outSum, minIn int64 = 0, -1
+	for _, sw := range o.swaps {
+		if sw.denom != d || !isLive(sw) {
+			continue
+		}
+		amt, _ := strconv.ParseInt(sw.amt, 10, 64)
+		if sw.dir == int(types.SWAP_DIRECTION_INCOMING) {
+			in = true
+			if minIn < 0 || amt < minIn {
+				minIn = amt
+			}
+		} else {
+			out = true
+			outSum += amt
+		}
+	}
+	return in, out, in && out && minIn <= outSum
+}
+
+// genSetDeputy: governance rotates the deputy address of one asset (to the other deputy party or to a plain
+// user, preferably while swaps of the asset are live in both directions); the swaps that were live at the
+// rotation are queued and closed afterwards (claim / expire + refund) by the targeted follow-ups in seq.
+func (w *world) genSetDeputy(r *c.Rng, st *seqState, o obs) *opDesc {
+	k := w.tApp.GetBep3Keeper()
+	d := r.Intn(nAssets)
+	best := -1
+	for i := 0; i < nAssets; i++ {
+		in, out, cov := liveBothWays(o, i)
+		score := 0
+		if in || out {
+			score = 1
+		}
+		if in && out {
+			score = 2
+		}
+		if cov {
+			score = 3
+		}
+		if score > best || (score == best && r.Bool()) {
+			best, d = score, i
+		}
+	}
+	if r.Chance(15) {
+		d = r.Intn(nAssets)
+	}
+	a, _ := w.assetOf(o, d)
+	old := w.partyIdx(a.DeputyAddress)
+	var cands []int
+	for _, p := range []int{1, 2, 1, 2, 3, 4, 5} {
+		if p != old {
+			cands = append(cands, p)
+		}
+	}
+	// a user with a live outgoing swap of this asset becomes the deputy: its own swaps would read as incoming
+	for _, sw := range o.swaps {
+		if sw.denom == d && isLive(sw) && sw.dir == int(types.SWAP_DIRECTION_OUTGOING) && sw.sender != old && sw.sender >= 1 && sw.sender <= 5 {
+			cands = append(cands, sw.sender)
+		}
+	}
+	nd := c.Pick(r, cands)
+	variant := "to-user"
+	if nd == 1 || nd == 2 {
+		variant = "to-deputy-party"
+	}
+	var live [][]byte
+	nIn, nOut := 0, 0
+	for _, sw := range o.swaps {
+		if sw.denom == d && isLive(sw) {
+			live = append(live, sw.rawID)
+			if sw.dir == int(types.SWAP_DIRECTION_INCOMING) {
+				nIn++
+			} else {
+				nOut++
+			}
+		}
+	}
+	for i := len(live) - 1; i > 0; i-- { // shuffled: the order of the follow-up closes varies
+		j := r.Intn(i + 1)
+		live[i], live[j] = live[j], live[i]
+	}
+	argDep := old
+	if nd >= 0 {
+		argDep = nd
+	}
+	return &opDesc{
+		kind: "setdeputy", hashes: "-|-", args: fmt.Sprintf("%d,%d", d, argDep),
+		sig:  fmt.Sprintf("setdeputy|%s|in=%v|out=%v", variant, nIn > 0, nOut > 0),
+		run: func(cx sdk.Context) error {
+			p := k.GetParams(cx)
+			found := false
+			for i := range p.AssetParams {
+				if p.AssetParams[i].Denom == denoms[d] {
+					if nd >= 0 {
+						p.AssetParams[i].DeputyAddress = w.parties[nd]
+					} else {
+						p.AssetParams[i].DeputyAddress = nil
+					}
+					found = true
+				}
+			}
+			if !found {
+				return fmt.Errorf("asset missing")
+			}
+			if err := p.Validate(); err != nil {
+				return err
+			}
+			kapp.SetParams(w.tApp, cx, "bep3", &p, func() { k.SetParams(cx, p) })
+			return nil
+		},
+		after: func(ok bool) {
+			if ok {
+				st.rotations++
+				st.depQueue = append(live, st.depQueue...)
+			}
+		},
+	}
+}
+
+func findRaw(o obs, id []byte) *swapObs {
+	for i := range o.swaps {
+		if bytes.Equal(o.swaps[i].rawID, id) {
+			return &o.swaps[i]
+		}
+	}
+	return nil
+}
+
+// cdepEnc: the deputy in force at the creation of each stored swap, from the harness's own record
+func (st *seqState) cdepEnc(o obs) string {
+	var xs []string
+	for _, sw := range o.swaps {
+		if dep, ok := st.cdep[string(sw.rawID)]; ok {
+			xs = append(xs, fmt.Sprintf("%d,%d", sw.id, dep))
+		}
+	}
+	if len(xs) == 0 {
+		return "-"
+	}
+	return strings.Join(xs, ";")
 }
 
 // newBlock is the harness's own period clock: real time since its own last reset, per asset independently,
@@ -839,7 +994,7 @@ func errClass(err error) string {
 func (w *world) seq(out *c.Out, seq int, r *c.Rng) {
 	ctx, _ := w.base.CacheContext()
 	k := w.tApp.GetBep3Keeper()
-	st := &seqState{limStable: true, lastBlockNs: ctx.BlockTime().UnixNano()}
+	st := &seqState{limStable: true, lastBlockNs: ctx.BlockTime().UnixNano(), cdep: map[string]int{}, rotateSoon: r.Chance(25)}
 	w.randomParams(r, ctx)
 	cfg := fmt.Sprintf("0;%s;%s", bools(w.macc), bools(w.blocked))
 	// wiring facts the theorems assume (hcfg): the bep3 module account is a keeper Macc and blocked in x/bank
@@ -848,15 +1003,54 @@ func (w *world) seq(out *c.Out, seq int, r *c.Rng) {
 	}
 	nops := c.Budget(70, 150)
 	emit := func(d *opDesc, pre obs, cls kapp.Class, post obs, extra string) {
-		out.Case(d.sig+"|"+string(cls)+extra, "c13.op", d.kind, cfg, w.enc(pre), d.args, d.hashes, c.B(st.limStable), st.shadow(), "=>", string(cls), w.enc(post))
+		out.Case(d.sig+"|"+string(cls)+extra, "c13.op", d.kind, cfg, w.enc(pre), d.args, d.hashes, c.B(st.limStable), st.shadow(), st.cdepEnc(post), "=>", string(cls), w.enc(post))
 	}
 	for i := 0; i < nops; i++ {
 		pre := w.observe(ctx, st, out)
 		var d *opDesc
 		x := r.Intn(100)
+		// targeted follow-ups of a deputy rotation: the swaps that were live at the rotation are claimed with the
+		// right secret, or expired (a block exactly onto their expiry) and then refunded
+		var forceDh int64
+		if i > 0 && st.pendingClaim == nil && len(st.depQueue) > 0 && r.Chance(70) {
+			sw := findRaw(pre, st.depQueue[0])
+			switch {
+			case sw == nil || !isLive(*sw):
+				st.depQueue = st.depQueue[1:]
+			case sw.status == int(types.SWAP_STATUS_EXPIRED):
+				st.depQueue = st.depQueue[1:]
+				id, from := sw.rawID, r.Intn(6)
+				d = &opDesc{
+					kind: "refund", args: fmt.Sprintf("%d,%d", from, st.ids.of(id)), hashes: "-|-",
+					sig: fmt.Sprintf("refund|after-setdeputy|st%d-dir%d", sw.status, sw.dir),
+					run: func(cx sdk.Context) error { return k.RefundAtomicSwap(cx, w.parties[from], id) },
+				}
+			default: // open
+				far := sw.expire > uint64(pre.height) && sw.expire-uint64(pre.height) > 1<<20
+				if r.Chance(55) || far {
+					st.depQueue = st.depQueue[1:]
+					st.pendingClaim, st.pendingTag = sw.rawID, "right-after-setdeputy"
+				} else if sw.expire > uint64(pre.height) {
+					forceDh = int64(sw.expire - uint64(pre.height))
+				} else {
+					forceDh = 1
+				}
+			}
+		}
+		if d == nil && forceDh == 0 && st.rotateSoon && st.rotations == 0 && st.pendingClaim == nil && i > 0 {
+			for a := 0; a < nAssets && d == nil; a++ {
+				if _, _, cov := liveBothWays(pre, a); cov {
+					d = w.genSetDeputy(r, st, pre)
+				}
+			}
+		}
 		switch {
-		case i == 0 || x < 22: // a new block
+		case d != nil:
+		case i == 0 || x < 22 || forceDh > 0: // a new block
 			dh, dt, tag := w.genBegin(r, pre)
+			if forceDh > 0 {
+				dh, tag = forceDh, "onto-expiry-after-setdeputy"
+			}
 			nctx := ctx.WithBlockHeight(pre.height + dh).WithBlockTime(time.Unix(0, pre.timeNs+dt).UTC())
 			st.newBlock(pre.assets, pre.timeNs+dt)
 			panicked, msg := c.Recover(func() { bep3.BeginBlocker(nctx, k) })
@@ -893,10 +1087,12 @@ func (w *world) seq(out *c.Out, seq int, r *c.Rng) {
 			d = w.genCreate(r, st, pre)
 		case x < 78:
 			d = w.genClaim(r, st, pre)
-		case x < 95:
+		case x < 93:
 			d = w.genRefund(r, st, pre)
-		default:
+		case x < 97:
 			d = w.genSetLimit(r, st, pre)
+		default:
+			d = w.genSetDeputy(r, st, pre)
 		}
 		if d == nil {
 			out.Note("skipped:not-reachable")
